@@ -34,7 +34,7 @@ def program_sets(tier):
 
 def run(rep, info, model, tier, seed):
     proof_ok = rep.proof_obligations(info, "props/C11.v")
-    rep.assumptions += ["schedules are explored at the granularity of shared-state actions; that local computation between them commutes with other threads' steps is an argument, not mechanised",
+    rep.assumptions += ["schedules are explored at the granularity of shared-state actions; that local computation between them commutes with other threads' steps is an argument, not mechanised; it is probed by the line-level family (every executed source line a scheduling point, one preemption)",
                         "zlib is an oracle: that a raw-deflate stream inflates iff its sync-flushed messages arrive in compression order is checked with real zlib by the harness' RFC 7692 peer"]
     sets = program_sets(tier)
     two = [s for s in sets if len(s[0]) == 2]
